@@ -72,6 +72,7 @@ fn kind_of(e: httparse::Error) -> Kind {
 fn outcome_of(r: httparse::Result<usize>) -> Outcome {
     match r { Ok(httparse::Status::Complete(n)) => Outcome::Complete(n), Ok(httparse::Status::Partial) => Outcome::Partial, Err(e) => Outcome::Err(kind_of(e)) }
 }
+static GETTER_BAD: std::sync::atomic::AtomicBool = std::sync::atomic::AtomicBool::new(false);
 fn mkcfg(c: Cfg) -> httparse::ParserConfig {
     // every option is first set to the OPPOSITE value and then to the wanted one (a setter must also be able to clear its flag),
     // and the four getters must report what was set (a disagreement is a panic, reported by the panic hook as a finding)
@@ -86,9 +87,10 @@ fn mkcfg(c: Cfg) -> httparse::ParserConfig {
     p.allow_space_before_first_header_name(c.sp_before_first);
     p.ignore_invalid_headers_in_responses(c.ignore_resp);
     p.ignore_invalid_headers_in_requests(c.ignore_req);
-    assert!(p.multiple_spaces_in_request_line_delimiters_are_allowed() == c.multi_sp_req && p.multiple_spaces_in_response_status_delimiters_are_allowed() == c.multi_sp_resp
-        && p.obsolete_multiline_headers_in_responses_are_allowed() == c.fold_resp && p.space_before_first_header_name_are_allowed() == c.sp_before_first,
-        "a ParserConfig getter does not report the value its setter was given");
+    if !(p.multiple_spaces_in_request_line_delimiters_are_allowed() == c.multi_sp_req && p.multiple_spaces_in_response_status_delimiters_are_allowed() == c.multi_sp_resp
+        && p.obsolete_multiline_headers_in_responses_are_allowed() == c.fold_resp && p.space_before_first_header_name_are_allowed() == c.sp_before_first) {
+        GETTER_BAD.store(true, Ordering::Relaxed);
+    }
     p
 }
 /// offset range of a sub-slice inside buf, or None if it is not inside
@@ -942,6 +944,12 @@ fn main() {
         if fam == "sweep" || fam == "all" { search_sweep(&mut ctx); }
         if fam == "dict" || fam == "all" { search_dict(&mut ctx); }
         if fam == "strides" || fam == "all" { search_strides(&mut ctx); }
+        if GETTER_BAD.load(Ordering::Relaxed) {
+            ctx.max += 1;
+            ctx.gen = "config";
+            ctx.add(Finding { stage: "any", gen: "", family: "config", oracle: "config-getter".into(), entry: "ParserConfig setters/getters".into(), cfg: 0, cap: 0, input: vec![],
+                              real: "after option(!v) followed by option(v) on one ParserConfig value, a *_are_allowed getter does not report v".into(), expected: "each setter sets and clears exactly its own flag".into() });
+        }
         let pa = PARSE_ALLOCS.load(Ordering::Relaxed);
         if pa > 0 {
             ctx.max += 1;
